@@ -25,13 +25,14 @@ from lib import fw
 MODULE = "AurelVerif.Props.C18"
 THEOREMS = ["AurelVerif.C18." + t for t in (
     "parse_format_key", "parse_format_file", "parse_format_checkpoint", "parse_h5file_ignores_directory",
-    "print_parse_roundtrip", "print_parse_roundtrip_markers_partial", "restarts_done_spec",
-    "iterations_call_spec", "incremental_eq_fresh", "iterations_idempotent",
+    "print_parse_roundtrip", "print_parse_roundtrip_unconditional_is_false", "restarts_done_spec",
+    "iterations_call_spec", "incremental_eq_fresh", "iterations_idempotent", "stable_criterion",
     "scan_level_faithful", "content_cached_eq_scanned", "content_key_roundtrip",
     "overall_no_singles_independent_of_linspace", "linspace_is_not_membership",
-    "overall_drops_iteration_witness")]
-FILES = ["AurelVerif/Props/C18.lean", "AurelVerif/Lemmas/Catalog.lean", "AurelVerif/Model/Catalog.lean",
-         "Driver/C18.lean"]
+    "overall_drops_iteration_witness", "overall_full_is_false", "exS_stable")]
+FILES = ["AurelVerif/Props/C18.lean", "AurelVerif/Lemmas/Catalog.lean", "AurelVerif/Lemmas/CatalogParse.lean",
+         "AurelVerif/Lemmas/CatalogIncr.lean", "AurelVerif/Lemmas/CatalogScan.lean",
+         "AurelVerif/Model/Catalog.lean", "Driver/C18.lean"]
 
 # --------------------------------------------------------------------------
 # encoding of the line protocol
